@@ -264,7 +264,7 @@ class PathCtx:
                 return
             if r == z3.sat:
                 ob.status = "refuted"
-                ob.model = self.extract_model(self.solver.model())
+                ob.model = self.extract_model(self.small_model(self.solver, self.solver.model()))
                 ob.solver = "z3"
             else:
                 ob.status = "unknown"
@@ -280,7 +280,7 @@ class PathCtx:
             ob.status = "proved"
         elif r == z3.sat:
             ob.status = "refuted"
-            ob.model = self.extract_model(s.model())
+            ob.model = self.extract_model(self.small_model(s, s.model()))
         else:
             # second chance: other back ends on the exported query
             st, detail, which, dt2 = self.ex.fallback(self.pc, z3.Not(cond.e))
@@ -331,6 +331,23 @@ class PathCtx:
         else:
             ok = self.feasible(zb(cond))
         self.covers.append((name, ok))
+
+    def small_model(self, solver, m):
+        """prefer a counter-model with short byte strings (replayable natively)"""
+        lens = [t.length for (k, t) in self.fresh_vars.values() if k == "bytes" and not isinstance(t.length, int)]
+        if not lens:
+            return m
+        for bound in (4, 12, 40, 200, 1100):
+            solver.push()
+            for ln in lens:
+                solver.add(ln <= bound)
+            r = solver.check()
+            if r == z3.sat:
+                m2 = solver.model()
+                solver.pop()
+                return m2
+            solver.pop()
+        return m
 
     def extract_model(self, m):
         out = {}
@@ -412,7 +429,8 @@ class Explorer:
         self.work.append(prefix)
 
     def current_summary_name(self):
-        return self.summary_stack[-1] if self.summary_stack else "?"
+        st = getattr(self.I, "summary_names", None)
+        return st[-1] if st else "?"
 
     def fallback(self, pc, neg):
         """try cvc5 and the system z3 on the SMT-LIB export of the query"""
@@ -484,7 +502,7 @@ class Explorer:
                         ob.status = "refuted" if r == z3.sat else "unknown"
                         ob.detail = "uncaught %s at %s" % (describe_exc(e.exc), ctx.loc)
                         if r == z3.sat:
-                            ob.model = ctx.extract_model(ctx.solver.model())
+                            ob.model = ctx.extract_model(ctx.small_model(ctx.solver, ctx.solver.model()))
                         ctx.note_failure(ob)
                     ctx.obligations.append(ob)
             except PathEnd:
